@@ -34,6 +34,7 @@ type Op struct {
 	Mutate       *Mut        `json:"mutate,omitempty"`        // not a call: change a document of the world (C16)
 	GlobalLoader bool        `json:"global_loader,omitempty"` // leave ExpandOptions.PathLoader nil: the package-level loader serves the call
 	LoaderTag    string      `json:"loader_tag,omitempty"`
+	KeepRoot     bool        `json:"keep_root,omitempty"` // C16: the root object decoded for an earlier call of this history is passed again (same in-memory object)
 	Install      bool        `json:"install,omitempty"` // C16: (re)assign spec.PathLoader before this call (a fresh process always does) // C16: install a new package-level loader function before this call
 	Faults       []sim.Fault `json:"faults,omitempty"`  // faults active during this call only (C16)
 	Pre          []string    `json:"pre,omitempty"`     // URLs pre-loaded into the cache (C18)
